@@ -63,6 +63,12 @@ pub fn observe<T>(f: impl FnOnce() -> T) -> (T, Vec<Freed>) {
     (r, log)
 }
 
+/// The blocks logged by the last `observe` on this thread whose closure did not return (it panicked): the observer is
+/// disarmed by then, the log is still there.
+pub fn take_log() -> Vec<Freed> {
+    LOG.with(|l| std::mem::take(&mut *l.borrow_mut()))
+}
+
 /// Does any freed block contain any `window`-byte substring of `secret`?
 pub fn find_leak(log: &[Freed], secret: &[u8], window: usize) -> Option<(usize, usize)> {
     if secret.len() < window {
